@@ -2,6 +2,7 @@ package descgen
 
 import (
 	"fmt"
+	"strings"
 
 	"verif/internal/ir"
 )
@@ -380,10 +381,24 @@ func K18() *Entry {
 	return &Entry{Name: "k18", File: f, Cfg: BaseConfig("Aroot", "Broot", "Croot"), Tags: []string{"map-only-reachability", "shared-message", "multi-root"}}
 }
 
+// K12: a file without a proto package (go_package names the Go package), with enums,
+// nested messages, a oneof and a map.
+func K12() *Entry {
+	m := WithOneofs(M("Bare", F("Name"), F("Kind", EnumT("Mode")), F("Sub", MsgT("BareSub")), F("Subs", MsgT("BareSub"), Rep()), F("ByKey", MsgT("BareSub"), MapOf(), NonNull()),
+		F("Left", In(0)), F("Right", MsgT("BareSub"), In(0)), F("When", TS(), Null())), "Side")
+	f := &ir.File{Name: "k12.proto", Package: "", GoPackage: "k12bare", Messages: []*ir.Message{m, M("BareSub", F("Note"), F("Level", Sc(ir.Int32)))}}
+	f.Enums = []*ir.Enum{modeEnum()}
+	AutoComments(f)
+	// a very long comment line and one with every kind of quote
+	m.Fields[0].Comment = " Name " + strings.Repeat("very long line ", 400) + "end\n"
+	m.Fields[1].Comment = " Kind `backticks` \"double\" 'single' \\backslash\\ \t tab \u00e9 %d %s {{template}} $var\n"
+	return &Entry{Name: "k12", File: f, Cfg: BaseConfig("Bare"), Tags: []string{"no-proto-package", "long-comment"}}
+}
+
 // Curated returns the curated corpus. known=true adds the isolated shapes that
 // are known not to compile on the pinned tree (D1, D2).
 func Curated() []*Entry {
-	return []*Entry{K1(), K2(), K3(), K4(), K5(), K6(0), K6(1), K6(2), K7(), K7X(), K8(), K9(), K10(false), K10(true)}
+	return []*Entry{K1(), K2(), K3(), K4(), K5(), K6(0), K6(1), K6(2), K7(), K7X(), K8(), K9(), K10(false), K10(true), K12()}
 }
 
 // Exotic returns the isolated shapes (K11).
